@@ -139,6 +139,11 @@ func parseFlowDesc(flowDesc, ueIP string) (*ipFilterRule, error) {
 		switch fields[i] {
 		case "from":
 			i++
+			if i+1 >= len(fields) {
+				// "from" needs an address and at least the "to" part after it
+				return nil, errBadFilterDesc
+			}
+
 			xform(i)
 
 			err := ipf.src.parseNet(fields[i])
@@ -158,6 +163,10 @@ func parseFlowDesc(flowDesc, ueIP string) (*ipFilterRule, error) {
 			}
 		case "to":
 			i++
+			if i >= len(fields) {
+				return nil, errBadFilterDesc
+			}
+
 			xform(i)
 
 			err := ipf.dst.parseNet(fields[i])
@@ -176,6 +185,11 @@ func parseFlowDesc(flowDesc, ueIP string) (*ipFilterRule, error) {
 				}
 			}
 		}
+	}
+
+	if ipf.src.IPNet == nil || ipf.dst.IPNet == nil {
+		// "from" or "to" part missing altogether
+		return nil, errBadFilterDesc
 	}
 
 	parseLog = parseLog.With("ip-filter", ipf)
